@@ -64,9 +64,12 @@ pub(crate) fn parse(range: Option<&HeaderValue>, len: u64) -> ResolvedRanges {
             if last == 0 {
                 continue; // a zero suffix-length selects nothing; this range is not satisfiable.
             }
-            if last >= len {
-                continue; // this range is not satisfiable; skip.
+            if len == 0 {
+                continue; // nothing to select; this range is not satisfiable.
             }
+            // RFC 7233 section 2.1: if the selected representation is shorter than the specified
+            // suffix-length, the entire representation is used.
+            let last = cmp::min(last, len);
             ranges.push((len - last)..len);
         } else {
             let first = match u64::from_str(&r[0..hyphen]) {
